@@ -27,7 +27,8 @@ ASSUMPTIONS = [
 ]
 
 ALIGNED = ['a', 'b', 'c', 'ab', 'ba', 'ac', 'cb', 'abc', 'cab']
-PATTERNS = ('int', 'bylabel', 'float')
+PATTERNS = ('int', 'bylabel', 'float', 'dates')
+DATE_BY_LABEL = {'a': 'datetime64[Y]', 'b': 'datetime64[D]', 'c': 'datetime64[D]'}     # same kind, same item size, different units; b and c can share a 2-D block
 KIND_BY_LABEL = {'a': 'int64', 'b': 'float64', 'c': '<U4'}
 
 
@@ -37,6 +38,9 @@ def cellval(i, lab, j, dtype):
         return base
     if dtype == 'float64':
         return base + 0.5
+    if dtype.startswith('datetime64'):
+        # a value that needs the full precision of its unit (a day inside a year, a second inside a day)
+        return np.datetime64('2001-03-14T05:06:07', 's').astype(dtype) + np.timedelta64(base, dtype[11:-1]).astype(f'timedelta64[{dtype[11:-1]}]')
     return 's%d' % base
 
 
@@ -51,7 +55,7 @@ def make_frame(i, desc, axis, collide):
         # columns are the aligned labels (typed per label), rows are the concat labels
         cols = []
         for lab in L:
-            dt = {'int': 'int64', 'float': 'float64'}.get(pattern) or KIND_BY_LABEL[lab]
+            dt = {'int': 'int64', 'float': 'float64'}.get(pattern) or (DATE_BY_LABEL if pattern == 'dates' else KIND_BY_LABEL)[lab]
             vals = [cellval(i, lab, j, dt) for j in range(m)]
             for j, v in enumerate(vals):
                 cells[(other[j], lab)] = v
@@ -61,7 +65,7 @@ def make_frame(i, desc, axis, collide):
         # index are the aligned labels, columns the concat labels (typed per column position)
         cols = []
         for j in range(m):
-            dt = {'int': 'int64', 'float': 'float64'}.get(pattern) or ('int64', 'float64')[j % 2]
+            dt = {'int': 'int64', 'float': 'float64'}.get(pattern) or (('datetime64[Y]', 'datetime64[D]', 'datetime64[D]')[j % 3] if pattern == 'dates' else ('int64', 'float64')[j % 2])
             vals = [cellval(i, lab, j, dt) for lab in L]
             for lab, v in zip(L, vals):
                 cells[(other[j], lab)] = v
@@ -77,7 +81,9 @@ def descriptors(k, tier):
     '''Per-input descriptor universe, narrowed as k grows.'''
     if k <= 2:
         al = ALIGNED if tier == 'thorough' else ALIGNED[:7]
-        return [(a, m, p, lay) for a in al for m in (1, 2) for p in PATTERNS for lay in (0, 1)]
+        # the date pattern: three columns (year, day, day) so that the two layouts differ in how the day columns are blocked
+        return ([(a, m, p, lay) for a in al for m in (1, 2) for p in PATTERNS[:3] for lay in (0, 1)]
+                + [(a, 3, 'dates', lay) for a in ('abc', 'cab', 'ab') for lay in (0, 1)])
     al = ALIGNED[:7] if tier == 'thorough' else ['a', 'ab', 'ba', 'cb']
     return [(a, 1, p, 1) for a in al for p in (('int', 'bylabel', 'float') if tier == 'thorough' else ('int', 'bylabel'))]
 
@@ -95,6 +101,8 @@ def cases(tier):
         yield ('series', k, nser)
     for sh in range(48):
         yield ('overlay', (sh, 48))
+    for k in (1, 2, 3):
+        yield ('series-overlay', k)
 
 
 def universe(tier):
@@ -295,6 +303,58 @@ def run_series(case, ctx):
     ctx.sample({'family': 'series', 'k': k}, limit=1)
 
 
+def run_series_overlay(case, ctx):
+    '''Series.from_overlay: k Series over ordered label subsets with every hole pattern; union / intersection / explicit index (any order, foreign labels).'''
+    _, k = case
+    pool = [('a', 'b', 'c'), ('c', 'a', 'b'), ('b', 'a'), ('c',), ('c', 'b')]
+    for kind in ('float64', 'object'):
+        miss = np.nan if kind == 'float64' else None
+        for labsets in itertools.product(pool if k < 3 else pool[:4], repeat=k):
+            for masks in itertools.product(*(itertools.product((0, 1), repeat=len(l)) for l in labsets)):
+                ser, dicts = [], []
+                for i, (labs, mask) in enumerate(zip(labsets, masks)):
+                    vals = [miss if m else 100 * (i + 1) + 'abc'.index(l) + 0.5 for l, m in zip(labs, mask)]
+                    a = np.empty(len(labs), dtype=kind)
+                    for q, v in enumerate(vals):
+                        a[q] = v
+                    ser.append(sf.Series(U.frozen(a), index=list(labs), name='s%d' % i))
+                    dicts.append(dict(zip(labs, vals)))
+                ctx.state(('series-overlay', kind, labsets, masks))
+                if k >= 2:
+                    ctx.nontriv(('series-overlay', kind, labsets, masks))
+                sets_ = [set(l) for l in labsets]
+                routes = [('union', dict(union=True), None, set().union(*sets_)), ('intersection', dict(union=False), None, set(sets_[0]).intersection(*sets_[1:]))]
+                for expl in (('c', 'b', 'a'), ('b', 'zz', 'a'), tuple(labsets[0][::-1])):
+                    routes.append(('index=' + ''.join(expl), dict(index=list(expl)), list(expl), set(expl)))
+                for rname, kw, order, lset in routes:
+                    ctx.transition()
+                    info = dict(kind=kind, labels=labsets, masks=masks, route=rname)
+                    tag = 'series.from_overlay|' + (rname if not rname.startswith('index=') else 'explicit-index')
+                    try:
+                        r = sf.Series.from_overlay((s_ for s_ in ser) if sum(map(len, labsets)) % 2 else ser, **kw)
+                    except Exception as e:
+                        ctx.violation(f'{tag}|raises|{type(e).__name__}', **info, error=repr(e))
+                        continue
+                    gl = r.index.values.tolist()
+                    if set(gl) != lset or len(gl) != len(lset) or (order is not None and gl != order):
+                        ctx.violation(f'{tag}|labels', **info, got=gl, expected=order or sorted(lset))
+                        continue
+                    if order is None and all(l == labsets[0] for l in labsets) and gl != list(labsets[0]):
+                        ctx.violation(f'{tag}|identical-indices-reordered', **info, got=gl)
+                        continue
+                    for lab, g in zip(gl, r.values.tolist()):
+                        e = miss
+                        for d in dicts:
+                            if lab in d and not is_missing(d[lab]):
+                                e = d[lab]
+                                break
+                        if not eqv(g, e):
+                            ctx.violation(f'{tag}|cell', **info, label=lab, got=norm(g), expected=norm(e), result=(gl, [norm(x) for x in r.values.tolist()]))
+                            break
+    ctx.outcome('series-overlay')
+    ctx.sample({'family': 'series-overlay', 'k': k}, limit=1)
+
+
 def run_overlay(case, ctx):
     '''from_overlay: k=2..3 frames over rows (x, y) and columns sub-permutations; every hole pattern on a 2x2 float/object grid.'''
     _, (sh, nsh) = case
@@ -372,7 +432,7 @@ def run_overlay(case, ctx):
 
 
 def run_case(case, ctx):
-    {'concat': run_concat, 'series': run_series, 'overlay': run_overlay}[case[0]](case, ctx)
+    {'concat': run_concat, 'series': run_series, 'overlay': run_overlay, 'series-overlay': run_series_overlay}[case[0]](case, ctx)
 
 
 _cases = cases
